@@ -264,7 +264,7 @@ type RResult struct {
 	MaxRetained   int
 	RetainSamples int
 	Stalls        int
-	ServeStalled  int // frames handed to the socket that the open client had not taken after the limit
+	ServeStalled  int    // frames handed to the socket that the open client had not taken after the limit
 	RetxDiff      string // a retransmission whose octets differ from the first transmission of the same message
 }
 
@@ -463,9 +463,7 @@ func (s *RSim) Run() *RResult {
 					}
 					close(done)
 				}()
-				select {
-				case <-done:
-				case <-time.After(limit):
+				if !common.WaitLive(done, limit) {
 					atomic.StoreInt32(&sendHung, 1)
 					s.add(REv{K: "note", Note: fmt.Sprintf("Send(tag %d) did not return within %v", st.Tag, limit)})
 					return
@@ -601,9 +599,7 @@ func (s *RSim) Run() *RResult {
 	if p.CloseUs == 0 && !res.SendHung && !p.NoProbe {
 		done := make(chan struct{})
 		go func() { s.send(90, 1<<30); close(done) }()
-		select {
-		case <-done:
-		case <-time.After(limit):
+		if !common.WaitLive(done, limit) {
 			res.SendHung = true
 			s.add(REv{K: "note", Note: "probe Send after the history did not return"})
 		}
